@@ -27,6 +27,8 @@ def _unsafe(case):
         flags = 'EZ'
     elif api and api.group(1).startswith('sharereplay'):
         flags = 'E'
+    if re.search(r'\bsrc=just:', case):      # ro.Just(...) completes synchronously
+        return 'C' in flags
     if not m or m.group(1) == '-':
         return False
     for g in m.group(1).split(';'):
